@@ -1744,7 +1744,7 @@ theorem patchOpsOfJson_go_opDocs : ∀ ops : List PatchOp,
     patchOpsOfJson.go (ops.map opDoc) = .ok (ops.map normOp)
   | [] => rfl
   | p :: r => by
-    simp [patchOpsOfJson.go, patchOpsOfJson.strField, alookup, opDoc, normOp,
+    simp [patchOpsOfJson.go, patchOpsOfJson.strField, patchOpsOfJson.valueField, alookup, opDoc, normOp,
       patchOpsOfJson_go_opDocs r]
     rfl
 
@@ -2404,10 +2404,10 @@ theorem renderPatchM_eq (nc : NumCodec) (d : V1.PDiff) :
     | panic => rfl
 
 theorem patchOpsOfJson_go_opDocs : ∀ ops : List PatchOp,
-    patchOpsOfJson.go (ops.map opDoc) = .ok (ops.map normOp)
+    V1.patchOpsOfJson.go (ops.map opDoc) = .ok (ops.map normOp)
   | [] => rfl
   | p :: r => by
-    simp [patchOpsOfJson.go, patchOpsOfJson.strField, alookup, opDoc, normOp,
+    simp [V1.patchOpsOfJson.go, V1.patchOpsOfJson.strField, alookup, opDoc, normOp,
       patchOpsOfJson_go_opDocs r]
     rfl
 
@@ -2448,7 +2448,7 @@ theorem readPatchM_renderPatchM (nc : NumCodec) (d : V1.PDiff) (ops : List Patch
     simp [Json.rawDoc, rawDocList_opDocs]
   obtain ⟨text, ht⟩ := jsonText_some nc _ hp
   refine ⟨text, by rw [renderPatchM_eq, hops]; simp only [ht], ?_⟩
-  simp only [V1.readPatchM, parseJson_text' nc _ text hp hr ht, V1.readPatchDoc, patchOpsOfJson,
+  simp only [V1.readPatchM, parseJson_text' nc _ text hp hr ht, V1.readPatchDoc, V1.patchOpsOfJson,
     patchOpsOfJson_go_opDocs, List.length_map]
 
 /-- (b) for v1, values as read: nothing changes -/
